@@ -572,6 +572,13 @@ package zygo
 // that makes nothing makes those calls fail in every interpreter of the process from then on
 //@ func (*GoStructRegistryType).GetOrCreateSliceType$1
 //@ C01,C20 ensures the-slice-type-factory-makes-a-value: r1 == nil ==> r0 != nil
+// declared types are compared by type object, and a slice type object is found by name: the name of a
+// slice type is built from the REGISTERED name of its element type (unique per declared struct), not
+// from the Go type underneath, which all declared structs share
+//@ func (*GoStructRegistryType).GetOrCreateSliceType
+//@ ghost wantedName := "[]" + rt.RegisteredName @entry
+//@ C17 assert slice-type-is-named-after-the-registered-element-type @before call Lookup[0]: arg1 == wantedName
+//@ C17 assert slice-type-is-registered-under-that-name @before call RegisterUserdef[0]: len(arg3) == 1 && arg3[0] == wantedName
 // mdef: every target slot is filled with a symbol before the value is compiled; the bind
 // instruction hands each one to BindSymbol, which dereferences it
 //@ func (*Generator).GenerateMultiDef
